@@ -547,6 +547,28 @@ func (k c07) Run(c *mon.Ctx, workload string, i int64) {
 				c.Violate("malformed-string-accepted", fmt.Sprintf("spelling %q is malformed but was accepted as %s", sp, got), cs)
 			}
 		}
+		// the same spelling in company: after a back-quoted identifier and an
+		// escaped string earlier in the SAME source it denotes the same value,
+		// or is rejected just the same
+		if class != litAmbiguous {
+			src2 := "`k w` = 1\nq = \"a\\tb\"\nx = " + sp
+			o2 := drive.Parse("c07.p", src2)
+			c.Eval(1)
+			cs2 := map[string]any{"spelling": fmt.Sprintf("%q", sp), "source": src2}
+			switch {
+			case o2.Panic != nil || o2.Stderr != "":
+				c.Violate("literal-crash", fmt.Sprintf("parsing %q crashed: %v", src2, o2.Panic), cs2)
+			case class == litMalformed && o2.Err == nil:
+				c.Violate("malformed-string-accepted", fmt.Sprintf("spelling %q is malformed (and rejected on its own) but accepted after a back-quoted identifier and a string: %q", sp, src2), cs2)
+			case class == litWell && o2.Err != nil:
+				c.Violate("wellformed-string-rejected", fmt.Sprintf("spelling %q denotes %q but is rejected after a back-quoted identifier and a string: %v", sp, want, o2.Err), cs2)
+			case class == litWell:
+				st, err := gt.FromStmts(o2.Stmts)
+				if err != nil || len(st) != 3 || st[2].K != gt.KAssign || len(st[2].RHS) != 1 || st[2].RHS[0].K != wantKind || st[2].RHS[0].S != want {
+					c.Violate("string-literal-wrong-value", fmt.Sprintf("spelling %q must denote %q also as the third statement of %q", sp, want, src2), cs2)
+				}
+			}
+		}
 	case "ints":
 		sp := c07IntList[i]
 		c07Number(c, sp)
